@@ -268,7 +268,10 @@ def run_tell_product(ctx: Ctx, rng, store, kind: str, idx: int) -> None:
     from optuna.trial import TrialState as S
 
     nobj = rng.choice([1, 2])
-    study = optuna.create_study(storage=store.primary, study_name=f"c02t-{ctx.shard[0]}-{idx}", directions=["minimize"] * nobj)
+    # (an explicit RandomSampler: the multi-objective default, NSGA-II, hits finding F6 - judged under C09 - once the study
+    # outgrows one generation in a storage shared with other studies)
+    study = optuna.create_study(storage=store.primary, study_name=f"c02t-{ctx.shard[0]}-{idx}", directions=["minimize"] * nobj,
+                                sampler=optuna.samplers.RandomSampler(seed=idx))
     vals = [None, 1.0, [1.0], [1.0, 2.0], "x", float("nan"), [float("nan")] * nobj, [1.0] * nobj, np.float32("nan"), 10 ** 400]
     states = [None, S.COMPLETE, S.PRUNED, S.FAIL, S.RUNNING, S.WAITING]
     facts = {"backend_family": backends.family_of(kind), "n_objectives": nobj}
